@@ -1865,10 +1865,11 @@ def _counting_loops(out):
                                                       or (cond[1] == "Ne" and cond[2][:2] == ("var", v) and cond[3] == ("lit", 0))
                                                       or (cond[1] == "Lt" and cond[3][:2] == ("var", v) and cond[2] == ("lit", 0))):
                     rng = (["_"], ("lit", 0), cond[2] if cond[1] != "Lt" else cond[3])
-                elif clean and step == "AddAssign" and cond[1] == "Lt" and cond[2][:2] == ("var", v) and not any(isinstance(x, tuple) and x[:2] == ("var", v) for x in sx_walk(cond[3])) \
+                elif clean and step == "AddAssign" and cond[1] in ("Lt", "Le") and cond[2][:2] == ("var", v) and not any(isinstance(x, tuple) and x[:2] == ("var", v) for x in sx_walk(cond[3])) \
                         and res and res[-1][0] == "let" and res[-1][2] and res[-1][1].split("#")[0] == v:
                     lo = res.pop()[3]
-                    rng = ([body[-1][2][2] if len(body[-1][2]) > 2 else v], lo, cond[3])
+                    hi = cond[3] if cond[1] == "Lt" else ("bin", "Add", cond[3], ("lit", 1))
+                    rng = ([body[-1][2][2] if len(body[-1][2]) > 2 else v], lo, hi)
                 if rng:
                     it = ("adt", "core::ops::Range", "Range", (("start", rng[1]), ("end", rng[2])))
                     res.append(("for", rng[0], it, body[:-1], st[2]))
@@ -2150,7 +2151,13 @@ def closure_body_sx(facts, cdef):
         if pat.get("k") != "Bind" or "sub" in pat:
             return None
         names.append(pat["name"])
-    return names, sx(cb["body"], let_env(cb["body"]))
+    body = sx(cb["body"], let_env(cb["body"]))
+    if body[0] == "opaque":
+        # a block of (destructuring) lets followed by an expression
+        sts = stmts(cb["body"], {})
+        if sts and sts[-1][0] == "expr" and all(st[0] in ("let", "letpat") for st in sts[:-1]):
+            body = sts[-1][1]
+    return names, body
 
 
 def beta(facts, t):
